@@ -965,7 +965,8 @@ class Pregex():
         elif self.__type == _Type.Group:
             if self.__pattern.startswith('(?P'):
                 # Remove name from named capturing group.
-                pattern = _re.sub('\(\?P<[^>]*>', f'(?:', str(self), count=1)
+                pattern = _re.sub('\(\?P<[^>]*>',
+                    f"(?{'i' if is_case_insensitive else ''}:", str(self), count=1)
             elif self.__pattern.startswith('(?'):
                 # Remove any possible flags from non-capturing group.
                 pattern = _re.sub(
@@ -974,7 +975,8 @@ class Pregex():
                     count=1)
             else:
                 # Else convert capturing group to non-capturing group.
-                pattern = self.__pattern.replace('(', '(?:', 1)
+                pattern = self.__pattern.replace('(',
+                    f"(?{'i' if is_case_insensitive else ''}:", 1)
         else:
             pattern = f"(?{'i' if is_case_insensitive else ''}:{self})"
         return __class__(pattern, escape=False)
